@@ -54,7 +54,8 @@ Fork(i) ==
   /\ hist' = Append(hist, [op |-> "fork", g |-> i, k |-> 0, from |-> Pos(gens[i].cb, gens[i].co), path |-> "restore"])
 
 \* a state crafted by hand (seed || customizer || counter) and restored: replaces generator 1
-FarBlocks == {67108863, 67108864, 67108865, 1073741831}      \* 2^26 - 1, 2^26, 2^26 + 1 (byte offsets around 2^32), 2^30 + 7
+FarBlocks == {67108863, 67108864, 67108865, 1073741831,      \* 2^26 - 1, 2^26, 2^26 + 1 (byte offsets around 2^32), 2^30 + 7
+              255, 256, 65535, 65536, 16777215, 16777216}     \* the bytes of the block counter roll over
 Craft(b, o) ==
   /\ Len(hist) = 0
   /\ gens' = <<Restored(b, o)>>
